@@ -49,6 +49,8 @@ type Exec struct {
 	oblPrefix string
 	maxInline int
 	dryDepth  int
+	topFrame  *Frame
+	aim       *Clause
 	topLocs   []Loc // modifies clause of the function under verification, evaluated at entry (nil: no frame)
 }
 
@@ -763,6 +765,10 @@ func (f *Frame) instr(in ssa.Instruction, st *PState) {
 		nv := x
 		nv.GT = i.Type()
 		nv.S = ex.reg.SortOf(i.Type())
+		if nv.S != x.S {
+			// value conversion between distinct named struct types with identical underlying types
+			nv.T = ex.reg.convertStruct(x.T, i.X.Type(), i.Type())
+		}
 		if x.LV != nil {
 			// pointer conversion between types with identical underlying types
 			lv := *x.LV
